@@ -3,7 +3,10 @@
    (nothing more), staging/ is empty; Live0 gives "nothing less" (every content has its blob).
    One file per distinct content follows from the path being a function of the content's hash. *)
 From Cas Require Import History.
+From Cas Require Conc.
 From CasProofs Require Import StoreFS StoreInv StoreWrite StoreRead StoreHist.
+From CasProofs Require ConcInv.
+From CasProps Require ConcSetting C04.
 
 Theorem C07_exact_after_every_history :
   forall H : bytes -> bytes,
@@ -31,3 +34,13 @@ Print Assumptions C07_nothing_less.
 
 (* and from a fresh directory both hold after every history (Clean and Live0 in C01_from_fresh) *)
 Example C07_nonvacuous := StoreHist.toy_run_clean.
+
+(* concurrent clause: at the end of every schedule of every error-free concurrent program (from a
+   directory without orphans) the CAS directory holds exactly the referenced blobs *)
+Theorem C07_exact_at_quiescence_concurrent :
+  forall H cmp nops thr0 cas0, CasProps.ConcSetting.ConcSetting H cmp thr0 cas0 ->
+  forall g, cas0 = [] -> ConcInv.reachable H cmp nops thr0 cas0 g -> Conc.all_finished g = true ->
+  forall h, sm_get lex_cmp (Conc.g_cas g) h <> None
+            <-> (exists k it, In (k, it) (km (Conc.g_idx g)) /\ ihash it = h).
+Proof. exact CasProps.C04.C04_C07_quiescent_exact. Qed.
+Print Assumptions C07_exact_at_quiescence_concurrent.
